@@ -29,6 +29,11 @@ def run(ctx: Ctx):
     tg = I.load_module('dznpy.text_gen')
     spec = I.load_module('specs.cpp_gen')
     G = cg.globals
+    ctx.bounded = getattr(ctx, 'bounded', []) + [{
+        'function': 'cpp_gen Function / Constructor / Namespace rendering',
+        'bound': 'parameter lists, member-initialiser lists and namespace identifier lists have 0-2 entries (quick) / up '
+                 'to 3-4 entries (thorough); every name, type text, qualifier and body symbolic',
+        'result': 'proved per list length'}]
     ctx.trusted += ['z3 theory of strings; str.splitlines as an uninterpreted function with the law '
                     "splitlines('\\n'.join(L) + '\\n') == L for non-empty L of break-free strings",
                     'text_gen.TextBlock / Indentizer are executed as they are (their own contracts: C17, C18)']
